@@ -41,6 +41,8 @@ def _case(draw):
         spec['widths'] = [w] * D
     else:
         spec['negatives'] = draw(st.booleans())
+        if draw(st.booleans()):
+            spec['ranges'] = [spec['ranges'][0]] * D           # equal ranges, channel-specific negative events
         if not spec['negatives'] and draw(st.booleans()):
             # only tiny negative events: the documented W would be negative and is floored at 0
             spec['specials'] = [[0, draw(st.integers(0, D - 1)), -draw(st.sampled_from([1e-3, 1e-6, 0.01, 0.5]))]]
@@ -68,10 +70,26 @@ def _case(draw):
     else:
         scale = draw(st.sampled_from(SCALES + SCALES + ['LOG', 'biexp']))
     over = {}
-    if draw(st.integers(0, 5)) == 0:
-        for kname, strat in (('T', st.floats(10, 1e7)), ('M', st.floats(1, 10)), ('W', st.floats(0, 2))):
+    if draw(st.sampled_from([True, False, False, False, False])):
+        ints = draw(st.booleans())          # plain Python ints are legal parameter values
+        for kname, strat in (('T', st.integers(10, 10 ** 6) if ints else st.floats(10, 1e7)),
+                             ('M', st.integers(1, 9) if ints else st.floats(1, 10)),
+                             ('W', st.integers(0, 2) if ints else st.floats(0, 2))):
             if draw(st.booleans()):
                 over[kname] = draw(strat)
+    if spec['datatype'] == 'F' and D >= 2 and spec['n'] > 0 and draw(st.sampled_from([True, False])):
+        # channels sharing one stored range but with their own negative events: each needs its own logicle W
+        spec['negatives'] = True
+        spec['ranges'] = [spec['ranges'][0]] * D
+        spec['png'] = [None] * D
+        convert = None
+        form = draw(st.sampled_from(['all', 'list']))
+        sel = list(range(D)) if form == 'all' else draw(st.permutations(list(range(D))))
+        spell = [draw(st.booleans()) for _ in sel]
+        k = len(sel)
+        nbins = draw(nb)
+        scale = draw(st.sampled_from(['logicle', 'logicle', ['logicle'] * k]))
+        over = {}
     return dict(spec=spec, convert=convert, m=draw(st.floats(0.9, 1.2)), b=draw(st.floats(1, 5)),
                 form=form, sel=sel, spell=spell, nbins=nbins, scale=scale, over=over, derived=draw(st.sampled_from([None, None, None, ['slice', 1], ['slice', 2], ['list', 1]])))
 
